@@ -5,6 +5,7 @@ package main
 // implementation's canonical observables.  Monitors hook into transaction and block events.
 
 import (
+	"os"
 	upgradetypes "github.com/cosmos/cosmos-sdk/x/upgrade/types"
 	"bytes"
 	"encoding/base64"
@@ -89,8 +90,23 @@ type Exec struct {
 	WantNode bool
 	pendingUpgrade string
 	signSeen map[string]signSeen
+	wiring   *app.App
 	upgradeHeight  int64
 	WantConc int
+}
+
+// probeApp: an application object used only to read the static wiring (mounted store keys)
+func (x *Exec) probeApp() *app.App {
+	if x.C != nil {
+		return x.C.App
+	}
+	if x.wiring == nil {
+		home, err := os.MkdirTemp("", "hx-wiring-")
+		must(err)
+		x.wiring = newApp(dbmMem(), home)
+		os.RemoveAll(home)
+	}
+	return x.wiring
 }
 
 func NewExec(out *Out) *Exec {
@@ -441,6 +457,33 @@ func (x *Exec) Run(lines []string) {
 				}
 			}
 			x.cur = nil
+		case "UPROBE":
+			k, _ := strconv.Atoi(f[1])
+			ans := x.upgradeProbe(k)
+			x.Out.Cmd(l, ans)
+			// a probe the store accounting says must succeed (every mounted store on disk or introduced by that
+			// descriptor) and that fails is a node that meets an undeclared store
+			if strings.HasSuffix(ans, " fail") && k < len(app.Upgrades) {
+				onDisk := map[string]bool{}
+				for _, s := range diskAfter(k) {
+					onDisk[s] = true
+				}
+				for _, s := range app.Upgrades[k].StoreUpgrades.Added {
+					onDisk[s] = true
+				}
+				for _, r := range app.Upgrades[k].StoreUpgrades.Renamed {
+					onDisk[r.NewKey] = true
+				}
+				all := true
+				for name := range x.probeApp().GetKVStoreKey() {
+					if !onDisk[name] {
+						all = false
+					}
+				}
+				if all {
+					x.Flag("C19-store-loader", "this binary, restarted at the height of upgrade "+app.Upgrades[k].UpgradeName+" with upgrade-info.json on disk, cannot load its stores although the descriptor declares every store it mounts")
+				}
+			}
 		case "UPGRADE":
 			x.Out.Cmd(l, x.upgradeSchedule(f[1]))
 		case "CRASH":
